@@ -558,7 +558,7 @@ func runStatsFiles(ctx *core.Ctx, c05 bool) {
 	nfiles := ctx.Scale(2800, 64000)
 	if !c05 {
 		// C06 searches every file per row group and once more through MultiRowGroup: fewer files in thorough
-		nfiles = ctx.Scale(2800, 24000)
+		nfiles = ctx.Scale(2800, 16000)
 	}
 	workers := 8
 	var wg sync.WaitGroup
